@@ -77,10 +77,14 @@ struct Outcome {
   final_contents: String,
 }
 
-fn run_case(hist: &[Op], mode: OrigMode, ops: &[CopyOp]) -> Outcome {
+/// Where the original and the copy live relative to each other: unrelated names, the copy's path
+/// a string prefix of the original's, and the original's path a string prefix of the copy's.
+const NAMINGS: [(&str, &str); 3] = [("original", "backup/copy"), ("idx.orig", "idx"), ("data", "data.bak")];
+
+fn run_case(hist: &[Op], mode: OrigMode, ops: &[CopyOp], naming: usize) -> Outcome {
   let scratch = Scratch::new("c28");
-  let orig = scratch.sub("original");
-  let copy = scratch.sub("backup").join("copy");
+  let orig = scratch.sub(NAMINGS[naming].0);
+  let copy = scratch.path.join(NAMINGS[naming].1);
   let c = cfg();
   let fail = |sig: Option<&'static str>, s: String| Outcome { failure: Some((sig, s)), accesses: 0, final_contents: String::new() };
   // build the original
@@ -247,8 +251,9 @@ pub fn run(ctx: &Ctx) -> i32 {
     let hist: Vec<Op> = serde_json::from_value(v["case"]["history"].clone()).expect("history");
     let mode: OrigMode = serde_json::from_value(v["case"]["original"].clone()).expect("mode");
     let ops: Vec<CopyOp> = serde_json::from_value(v["case"]["ops"].clone()).expect("ops");
-    let a = run_case(&hist, mode, &ops);
-    let b = run_case(&hist, mode, &ops);
+    let naming = v["case"]["naming"].as_u64().unwrap_or(0) as usize;
+    let a = run_case(&hist, mode, &ops, naming);
+    let b = run_case(&hist, mode, &ops, naming);
     if a.failure.is_some() != b.failure.is_some() {
       vcore::ev::machinery_failure("NONDETERMINISM on replay");
     }
@@ -316,11 +321,16 @@ pub fn run(ctx: &Ctx) -> i32 {
     s
   };
   let modes = [OrigMode::Kept, OrigMode::Modified, OrigMode::Removed];
-  let mut cases: Vec<(usize, OrigMode, usize)> = Vec::new();
+  let mut cases: Vec<(usize, OrigMode, usize, usize)> = Vec::new();
   for b in 0..bases.len() {
     for m in modes {
       for s in 0..seqs_len(&seqs) {
-        cases.push((b, m, s));
+        // every case under the unrelated naming; the prefix-related namings for the short sequences
+        cases.push((b, m, s, 0));
+        if seqs[s].len() <= 1 {
+          cases.push((b, m, s, 1));
+          cases.push((b, m, s, 2));
+        }
       }
     }
   }
@@ -328,19 +338,19 @@ pub fn run(ctx: &Ctx) -> i32 {
   let outcomes: Mutex<HashSet<String>> = Mutex::new(HashSet::new());
   let budget = if quick { 40.0 } else { 1500.0 };
   let timed_out = std::sync::atomic::AtomicBool::new(false);
-  cases.par_iter().for_each(|(b, m, s)| {
+  cases.par_iter().for_each(|(b, m, s, nm)| {
     if rep.elapsed_s() > budget {
       timed_out.store(true, Ordering::Relaxed);
       return;
     }
-    let o = run_case(&bases[*b], *m, &seqs[*s]);
+    let o = run_case(&bases[*b], *m, &seqs[*s], *nm);
     evals.fetch_add(1, Ordering::Relaxed);
     let _ = o.accesses;
     match o.failure {
       Some((sig, what)) => rep.fail(
         sig,
-        &format!("original built by [{}], then {:?}; on the copy {:?}: {}", hist_str(&bases[*b]), m, seqs[*s], what),
-        json!({"engine": "copymc", "history": bases[*b], "original": m, "ops": seqs[*s]}),
+        &format!("original ({}) built by [{}], then {:?}; on the copy ({}) {:?}: {}", NAMINGS[*nm].0, hist_str(&bases[*b]), m, NAMINGS[*nm].1, seqs[*s], what),
+        json!({"engine": "copymc", "history": bases[*b], "original": m, "ops": seqs[*s], "naming": nm}),
       ),
       None => {
         outcomes.lock().insert(o.final_contents);
@@ -363,6 +373,7 @@ pub fn run(ctx: &Ctx) -> i32 {
     "distinct_nontrivial" => evals.load(Ordering::Relaxed),
     "rule" => "base states = every canonical state with >= 1 segment of a BFS over single-handle histories (tombstones, several segments, non-empty WAL included); each is copied recursively to another path; the original is then kept / modified by a further commit+compaction / removed; on the copy every sequence of <= 2 (quick) / <= 3 (thorough) operations from {add+commit, delete+commit, compact, reopen, add-without-commit} is executed between searches. libc interposition records every open/stat/unlink/rename/... whose path lies under the ORIGINAL root while the copy is used. Oracle: the copy opens; searches equal the contents model of the copy; zero accesses under the original root; original files byte-identical (or not recreated).",
     "op_sequences_per_state" => seqs.len() * 3,
+    "path_namings" => "original vs backup/copy (unrelated); idx.orig vs idx (copy path is a string prefix of the original's); data vs data.bak (original path is a string prefix of the copy's)",
     "distinct_observed_outcomes" => n_out,
     "cap_hit" => if to { Some(format!("wall budget {budget}s")) } else { None },
     "exhaustive" => !to,
